@@ -786,6 +786,30 @@ func (e *Env) call(n *ast.CallExpr) (Val, types.Type, error) {
 			rt = tb
 		}
 		return Val{K: a.K, W: a.W, T: ite(c, f.termAs(a, a.K, a.W), f.termAs(b, a.K, a.W)), Typ: rt}, rt, nil
+	case "athead":
+		// athead(k, e): e evaluated in the state at the head of loop k of this function (the arbitrary iteration the
+		// body is verified for): lets a hint inside or after the loop body name the values the variables had at the cut point
+		if e.fr == nil || len(n.Args) != 2 {
+			return Val{}, nil, errf("athead(k, e) is only available inside a function with loops")
+		}
+		kv, _, err := e.expr(n.Args[0])
+		if err != nil {
+			return Val{}, nil, err
+		}
+		kk, ok := parseIntLit(f.it(kv))
+		if !ok {
+			return Val{}, nil, errf("athead: loop ordinal must be a literal")
+		}
+		for _, li := range e.fr.loops {
+			if li.ord == int(kk.Int64()) && li.headState != nil {
+				sub := e.child()
+				sub.st = li.headState
+				sub.pos = li.pos
+				return sub.expr(n.Args[1])
+			}
+		}
+		// discovery pass of the loop (its results are rolled back): no head state yet, evaluate in the current state
+		return e.expr(n.Args[1])
 	case "old":
 		if e.old == nil {
 			return Val{}, nil, errf("old() not available here")
